@@ -582,3 +582,16 @@ package transport
 //@   requires stream != nil && rc != nil
 //@   modifies *
 //@   ensures calls(chanSend) == 1 && calls(ReadRawMsgFromTCP) == 1 && arg(chanSend, 0, 0) == rc
+
+// QuicDnsConn.ReserveNewQuery (C07, C09): it is called with the transport's mutex held, so it
+// never waits: a closed connection is reported as closed, otherwise ONE non-blocking OpenStream;
+// when that fails (the peer's stream limit is reached) the connection is reported as full, not as
+// closed, and the transport goes on to another connection.
+//@ func (c *QuicDnsConn) ReserveNewQuery [C07, C09]
+//@   requires c != nil && c.c != nil
+//@   modifies *
+//@   never quicOpenStreamSync
+//@   ensures calls(quicOpenStream) <= 1
+//@   ensures calls(quicOpenStream) == 1 && ret(quicOpenStream, 0, 1) != nil ==> result_0 == nil && !closed
+//@   ensures calls(quicOpenStream) == 1 && ret(quicOpenStream, 0, 1) == nil ==> result_0 != nil && !closed
+//@   ensures calls(quicOpenStream) == 0 ==> result_0 == nil && closed
